@@ -33,7 +33,7 @@ EXPLANATION = (
     "HtmlBlock/HtmlSpan. Rendering of children is SAFE by induction over the token tree. The "
     "round-trip of escaped text and the verbatim content of raw HTML tokens are not decided.")
 
-HTML_RENDERERS = ('HtmlRenderer',)
+HTML_RENDERERS = ('HtmlRenderer', 'MathJaxRenderer', 'GithubWikiRenderer', 'TocRenderer')
 RAW_CLASSES = {'HtmlBlock', 'HtmlSpan'}
 
 
